@@ -167,7 +167,7 @@ def decimal_laws(fs, op, out, dflt, sibling):
     if o["mx"] is not None and len(nz) > o["mx"]:
         return "more than max_significant_digits=%d significant digits: %s" % (o["mx"], nz)
     # zero padding is bounded too: beyond max(max, min) digits only the integer digits and the mandatory `.0` may appear
-    if o["mx"] is not None and w.frac is not None:
+    if o["mx"] is not None and w.frac is not None and not zero:
         int_sig = len(w.int.lstrip(b"0")) if w.exp is None else 1
         allowed = max(o["mx"], o["mn"] or 0, int_sig + 1)
         if len(sig) > allowed:
